@@ -222,7 +222,7 @@ func main() {
 			"identity comprehension - then an index-assignment into the result or the operand, all globals read back; the dict unions over two variables are also SUnion " +
 			"model cases of the union steps gotrans translated), and a stream of sorted(l, key=f, reverse=...) calls on pairwise different elements with few different " +
 			"keys (ints by x % m / x // m / constant, strings by len / first rune, pairs by first component; 2-12 elements, each call also an SSort model case with the " +
-			"keys the real interpreter computed; and 13-40 elements, where sort.Slice is pdqsort); every single-file program is ALSO a PPure case: the Go verdict on membership in the fragment must equal Coq's in_pure_subset on the " +
+			"keys the real interpreter computed; 2-12 and 13-40 elements, the latter being where sort.Slice - replaced by sort.SliceStable in /repo 62283f2 - was pdqsort); every single-file program is ALSO a PPure case: the Go verdict on membership in the fragment must equal Coq's in_pure_subset on the " +
 			"same AST, and whenever the reference run pure_run succeeds the real interpreter must have run without error, agreed with python3, and printed its globals. " +
 			"distinct = distinct program texts; non-trivial = a chain of >= 2 operators of different precedence, or a list/dict/function/loop")
 
@@ -376,8 +376,9 @@ func main() {
 			c.Hist("outcome", "differ")
 			it.verdict = "differ"
 			if it.sortp != nil && it.sortp.n > 12 && it.py.Err == "" {
-				// beyond 12 elements sort.Slice is pdqsort, which is not stable: the only difference allowed under this class is the
-				// order of elements with EQUAL keys in the result of a sorted(key=) call
+				// regression stream for /repo 62283f2 (sort.Slice -> sort.SliceStable): beyond 12 elements sort.Slice is pdqsort, which
+				// is not stable. The class is reported only when the one difference is the order of elements with EQUAL keys in the
+				// result of a sorted(key=) call; it is not a listed finding any more, so it is a VIOLATION if it comes back
 				ap := aspgen.PlainGlobals(it.asp.Final)
 				keyOf := map[string]string{}
 				l, _ := ap["l"].([]any)
@@ -531,7 +532,7 @@ func main() {
 			if it.sortp != nil {
 				c.Hist("sort_kind", it.sortp.kind)
 				c.HistN("sort_len", it.sortp.n)
-				if it.sortp.n <= 12 && it.asp.Err == "" {
+				if it.asp.Err == "" {
 					for _, sc := range it.sortp.calls {
 						term, sjs := sortCase(it.asp.Final, sc)
 						if term == "" {
